@@ -89,6 +89,20 @@ def dry_vs_real(task):
             nodes[pp] = {"p": pp, "k": "f", "data": b"payload of the linked info", "mode": 0o644, "mtime": 1000000400}
             world["nodes"] = sorted(nodes.values(), key=lambda n: n["p"])
             link_paths = {ip, pp}
+    tds = [t for t, _v in world["meta"].get("tdirs", []) if not any(e.get("via_link") for e in world["meta"]["entries"] if e["tdir"] == t)]
+    if tds and not link_paths and rng.random() < 0.3:
+        # two entries whose payloads are two names of ONE file (a file and its hard link, trashed one after the other):
+        # two entries all the same - both are removed, both are announced
+        nodes = {n["p"]: n for n in world["nodes"]}
+        t = rng.choice(tds)
+        if nodes.get(t + b"/files", {}).get("k") == "d" and nodes.get(t + b"/info", {}).get("k") == "d" and \
+                not any(q in nodes for q in (t + b"/files/hl-a", t + b"/files/hl-b", t + b"/info/hl-a.trashinfo", t + b"/info/hl-b.trashinfo")):
+            for nm in (b"hl-a", b"hl-b"):
+                nodes[t + b"/info/" + nm + b".trashinfo"] = {"p": t + b"/info/" + nm + b".trashinfo", "k": "f", "mode": 0o600, "mtime": 1000000500,
+                                                           "data": b"[Trash Info]\nPath=/SBX/w/" + nm + b"\nDeletionDate=2000-01-01T00:00:00\n"}
+                nodes[t + b"/files/" + nm] = {"p": t + b"/files/" + nm, "k": "f", "mode": 0o644, "mtime": 1000000500, "data": b"one file, two names"}
+            nodes[t + b"/files/hl-b"]["hardlink"] = t + b"/files/hl-a"
+            world["nodes"] = sorted(nodes.values(), key=lambda n: n["p"])
     world["argv"] = cmd_argv(world)
     dry = run_world(world, {})
     w2 = dict(world)
